@@ -81,6 +81,9 @@ const STEPS: &[(&str, &str)] = &[
     ("exec 3>f; exec 4>&3; echo a >&4; echo b >&3; exec 3>&- 4>&-; cat <f", "dup-shared-offset"),
     ("exec 3>f; echo a >&3; echo b >f; echo c >&3; exec 3>&-; cat <f", "two-descriptions-one-file"),
     (": >e; cat <e; echo empty", "truncate-by-null-command"),
+    ("exec 3>>f; echo aa >&3; echo bb >&3; : >f; echo c >&3; exec 3>&-; cat <f", "append-after-truncate"),
+    ("exec 3>f; echo aaaa >&3; : >f; echo b >&3; exec 3>&-; cat <f | cat", "write-after-truncate-keeps-offset"),
+    ("echo 123456789 >f; exec 3<f; read x <&3; : >f; echo zz >>f; read y <&3; echo \"$x|$y|$?\"; exec 3<&-", "read-after-truncate"),
     ("exec 3<e; exec 3<&-; cat <&3; echo $?", "closed-after-exec"),
     ("cat <<E\nhere $((1+1))\nE", "here-document"),
     ("cat <<E | cat\npiped\nE", "here-document-pipeline"),
